@@ -7,7 +7,6 @@ import (
 	"fmt"
 	"os"
 	"os/exec"
-	"sort"
 	"strings"
 	"syscall"
 	"time"
@@ -309,7 +308,39 @@ func (e *Explorer) judge(path []string, res *NodeResult, count bool) []viol {
 			if count {
 				p.Mark("outcomes", fmt.Sprintf("%x", vr.Hash64(base.Canon())))
 			}
-			for _, v := range e.post(c.Img, base, count) {
+			// Values are classified relative to the prefix j of accepted batches that recovery
+			// actually produced (the largest j whose model state equals the recovered reads).
+			model := res.Model
+			jrec := c.Acked
+			for j := c.Accepted; j >= 0; j-- {
+				want, all := model.After(j), true
+				for _, k := range s.Keys() {
+					v, ok := want[k]
+					if !eqVal(base.Gets[k], v, ok) {
+						all = false
+						break
+					}
+				}
+				if all {
+					jrec = j
+					break
+				}
+			}
+			classify := func(key string, val []byte) string {
+				if !model.Written[key][string(val)] {
+					return "never-written-value"
+				}
+				if cur, ok := model.After(jrec)[key]; ok && string(cur) == string(val) {
+					return "recovered-value"
+				}
+				for j := jrec; j < len(model.Batches); j++ {
+					if v, ok := model.Batches[j][key]; ok && string(v) == string(val) {
+						return "unrecovered-write" // written by a batch beyond the recovered prefix (lost or never acknowledged)
+					}
+				}
+				return "overwritten-value"
+			}
+			for _, v := range e.post(c.Img, base, count, classify) {
 				add(v.sig, v.desc, v.replay.Post)
 			}
 		}
@@ -335,17 +366,67 @@ func dupFid(h *dbh.H) (uint32, bool) {
 // ---- C11: maintenance schedules on a recovered image --------------------------------
 
 type postInst struct {
-	e       *Explorer
-	img     *crashfs.Image
-	rec     *Recovered
-	base    string
-	sig     string
-	desc    string
-	depth   int
-	last    string
-	hist    []string
-	put     []byte // value written by the "put" step (nil: not yet)
-	crashed bool   // a "crash" step happened after the put
+	e        *Explorer
+	img      *crashfs.Image
+	rec      *Recovered
+	base     string
+	sig      string
+	desc     string
+	depth    int
+	last     string
+	hist     []string
+	put      []byte // value written by the "put" step (nil: not yet)
+	crashed  bool   // a "crash" step happened after the put
+	baseSt   *State
+	classify func(key string, val []byte) string
+}
+
+// stateDiff names the first difference between the state right after reopen and now:
+// "get:x:acked-value->never-acknowledged-value", "iter:x:absent->overwritten-value".
+func (pi *postInst) stateDiff(now *State) string {
+	cls := func(k string, kr KeyRead) string {
+		switch {
+		case kr.Err != "":
+			return "error"
+		case !kr.Found:
+			return "notfound"
+		}
+		return pi.classify(k, kr.Val)
+	}
+	for _, k := range pi.e.Spec.Keys() {
+		a, b := pi.baseSt.Gets[k], now.Gets[k]
+		if a.String() != b.String() {
+			return fmt.Sprintf("get:%s:%s->%s", k, cls(k, a), cls(k, b))
+		}
+	}
+	type ik struct {
+		key string
+		ver uint64
+	}
+	am, bm := map[ik]IterEnt{}, map[ik]IterEnt{}
+	for _, e := range pi.baseSt.Iter {
+		am[ik{e.Key, e.Ver}] = e
+	}
+	for _, e := range now.Iter {
+		if e.Key == PostKey {
+			continue
+		}
+		bm[ik{e.Key, e.Ver}] = e
+		if o, ok := am[ik{e.Key, e.Ver}]; !ok {
+			return fmt.Sprintf("iter:%s:absent->%s", e.Key, cls(e.Key, KeyRead{Found: e.Err == "", Val: e.Val, Err: e.Err}))
+		} else if string(o.Val) != string(e.Val) || o.Err != e.Err {
+			return fmt.Sprintf("iter:%s:%s->%s", e.Key, cls(e.Key, KeyRead{Found: o.Err == "", Val: o.Val, Err: o.Err}), cls(e.Key, KeyRead{Found: e.Err == "", Val: e.Val, Err: e.Err}))
+		}
+	}
+	for _, e := range pi.baseSt.Iter {
+		if e.Key == PostKey {
+			continue
+		}
+		if _, ok := bm[ik{e.Key, e.Ver}]; !ok {
+			return fmt.Sprintf("iter:%s:%s->absent", e.Key, cls(e.Key, KeyRead{Found: e.Err == "", Val: e.Val, Err: e.Err}))
+		}
+	}
+	return "other"
 }
 
 func (pi *postInst) Enabled() []string {
@@ -430,6 +511,12 @@ func (pi *postInst) Apply(op string) (bool, error) {
 			pi.sig, pi.desc = "post-maint-panic:"+OpClass(op), err.Error()
 			return true, nil
 		}
+		if strings.Contains(err.Error(), "flush did not complete") {
+			// the flush task failed inside the engine (background work giving up): not a
+			// statement about contents; the reads are compared as usual
+			pi.e.P.Add("post_impl_errors", 1)
+			return true, nil
+		}
 		return false, err
 	}
 	return changed, nil
@@ -451,7 +538,7 @@ func (pi *postInst) Check() (string, string) {
 		}
 	}
 	if now != pi.base {
-		return "contents-changed after=" + OpClass(pi.last) + " " + diffClass(pi.base, now), fmt.Sprintf("visible contents changed without a client write after maintenance step %q\n--- after reopen\n%s--- now\n%s", pi.last, pi.base, now)
+		return "contents-changed after=" + OpClass(pi.last) + " " + pi.stateDiff(st) + " copies=" + pi.e.Spec.Locate(pi.rec.H), fmt.Sprintf("visible contents changed without a client write after maintenance step %q\n--- after reopen\n%s--- now\n%s", pi.last, pi.base, now)
 	}
 	return "", ""
 }
@@ -477,65 +564,6 @@ func (pi *postInst) Close() {
 	}
 }
 
-// diffClass names the first differing line class: "get a: value->notfound".
-func diffClass(a, b string) string {
-	la, lb := strings.Split(a, "\n"), strings.Split(b, "\n")
-	am, bm := map[string]string{}, map[string]string{}
-	split := func(l string) (string, string) {
-		if i := strings.Index(l, " = "); i >= 0 {
-			return l[:i], l[i+3:]
-		}
-		if i := strings.Index(l, " error("); i >= 0 {
-			return l[:i], "error"
-		}
-		return l, ""
-	}
-	var keys []string
-	for _, l := range la {
-		if l == "" {
-			continue
-		}
-		k, v := split(l)
-		am[k] = v
-		keys = append(keys, k)
-	}
-	for _, l := range lb {
-		if l == "" {
-			continue
-		}
-		k, v := split(l)
-		if _, ok := am[k]; !ok {
-			keys = append(keys, k)
-		}
-		bm[k] = v
-	}
-	sort.Strings(keys)
-	cls := func(v string, ok bool) string {
-		switch {
-		case !ok:
-			return "absent"
-		case v == "notfound":
-			return v
-		case strings.HasPrefix(v, "error"):
-			return "error"
-		}
-		return "value"
-	}
-	for _, k := range keys {
-		va, oka := am[k]
-		vb, okb := bm[k]
-		if va != vb || oka != okb {
-			f := strings.Fields(k)
-			what := k
-			if len(f) >= 1 {
-				what = f[0]
-			}
-			return fmt.Sprintf("%s:%s->%s", what, cls(va, oka), cls(vb, okb))
-		}
-	}
-	return "other"
-}
-
 func asImpl(err error, target **dbh.ImplError) bool {
 	for err != nil {
 		if ie, ok := err.(*dbh.ImplError); ok {
@@ -551,13 +579,13 @@ func asImpl(err error, target **dbh.ImplError) bool {
 	return false
 }
 
-func (e *Explorer) post(img *crashfs.Image, base *State, count bool) []viol {
+func (e *Explorer) post(img *crashfs.Image, base *State, count bool, classify func(string, []byte) string) []viol {
 	sub := vr.NewPartial()
 	baseCanon := withoutKey(base.Canon(), PostKey)
 	seqmc.Explore(seqmc.Config{
 		New: func() seqmc.Instance {
 			rec := e.R.Recover(img)
-			pi := &postInst{e: e, img: img, rec: rec, base: baseCanon}
+			pi := &postInst{e: e, img: img, rec: rec, base: baseCanon, baseSt: base, classify: classify}
 			if rec.OpenErr != "" {
 				pi.sig, pi.desc = "post-reopen-failed:"+Classify(rec.OpenErr), rec.OpenErr
 			}
